@@ -28,6 +28,21 @@ func sanitize(s string) string {
 func (i *interpreter) fresh(name string, k types.BasicKind) value {
 	p := i.path
 	w := kindWidth(k)
+	if p.replay != nil {
+		// engine-concrete replay: inputs come from the recorded counterexample
+		var bits uint64
+		if idx := len(p.nondets); idx < len(p.replay.nondets) {
+			bits = p.replay.nondets[idx]
+		}
+		var t *Term
+		if k == types.Bool {
+			t = i.tt.Bool(bits != 0)
+		} else {
+			t = i.tt.Const(w, bits)
+		}
+		p.nondets = append(p.nondets, nondetRec{Name: name, Kind: types.Typ[k].Name(), W: w, term: t})
+		return i.box(t, k)
+	}
 	vn := fmt.Sprintf("n%d_%s", len(p.nondets), sanitize(name))
 	t := i.tt.Var(w, vn)
 	p.nondets = append(p.nondets, nondetRec{Name: name, Kind: types.Typ[k].Name(), W: w, term: t})
@@ -138,6 +153,24 @@ func registerIntrinsics() {
 	reg("vIsConcrete", func(fr *frame, a []value) value { return !isSym(a[0]) })
 	reg("vYield", func(fr *frame, a []value) value {
 		fr.i.sched.yield(fr, a[0].(string))
+		return nil
+	})
+	reg("vYieldAll", func(fr *frame, a []value) value {
+		s := fr.i.sched
+		var others []*gor
+		for _, g := range s.runnable() {
+			if g != s.cur {
+				others = append(others, g)
+			}
+		}
+		if len(others) == 0 {
+			return nil
+		}
+		to := others[0]
+		if len(others) > 1 {
+			to = others[fr.i.choose(0, int64(len(others)-1))]
+		}
+		s.switchTo(s.cur, to)
 		return nil
 	})
 	reg("vLiveGoroutines", func(fr *frame, a []value) value { return fr.i.sched.live() })
